@@ -98,7 +98,11 @@ def module(cases, ctxs, d):
     where, callers = {}, []
     for i, (e, ctx) in enumerate(zip(cases, ctxs)):
         src.append("func F%d(p0, p1 *T, c0, c1 bool) bool {" % i)
-        pre, post = {"ret": ("\treturn (", ")"), "assign": ("\tb := (", ")\n\treturn b"), "arg": ("\treturn sink(", ")")}[ctx]
+        if isinstance(ctx, tuple):
+            # the value is assigned and a dereference FOLLOWS the statement (leaf 999): it runs on every outcome
+            pre, post = "\tb := (", ")\n\t_ = b\n\treturn p%d.f == 999" % ctx[1]
+        else:
+            pre, post = {"ret": ("\treturn (", ")"), "assign": ("\tb := (", ")\n\treturn b"), "arg": ("\treturn sink(", ")")}[ctx]
         src.append(pre)
         for l in golines(e, 2):
             m = re.search(r"p\d+\.f == (\d+)", l)
@@ -107,7 +111,11 @@ def module(cases, ctxs, d):
             src.append(l)
         posts = post.split("\n")
         src[-1] += posts[0]
-        src += posts[1:] + ["}", ""]
+        for pl in posts[1:]:
+            if "== 999" in pl:
+                where[(i, 999)] = len(src) + 1
+            src.append(pl)
+        src += ["}", ""]
         callers.append("\t_ = F%d(nil, nil, true, false)" % i)
     src.append("func callers() {\n" + "\n".join(callers) + "\n}")
     open(os.path.join(d, "a.go"), "w").write("\n".join(src) + "\n")
@@ -118,10 +126,11 @@ def COQDIR():
     return common.COQ
 
 
-def run_model(cases, workdir):
+def run_model(cases, workdir, tails=None):
     v = ["From NM Require Import ShortCircuit.", "From NP Require Import ShortCircuitCmp.", "Require Import List. Import ListNotations.",
-         "Definition cases : list sexp := [", ";\n".join("  " + coq(e) for e in cases), "].",
-         "Definition out := Eval vm_compute in map (fun e => reported e ++ [if left_pure e then 9001 else 9000]) cases.", "Print out."]
+         "Definition cases : list (sexp * list consumer) := [",
+         ";\n".join("  (%s, %s)" % (coq(e), "[(%d, 999)]" % t if t is not None else "[]") for e, t in zip(cases, tails or [None] * len(cases))), "].",
+         "Definition out := Eval vm_compute in map (fun et => map snd (proc_stmt (fst et) (snd et)) ++ [if left_pure (fst et) then 9001 else 9000]) cases.", "Print out."]
     open(os.path.join(workdir, "sc_cases.v"), "w").write("\n".join(v) + "\n")
     p = subprocess.run(["coqc", "-Q", os.path.join(COQDIR(), "model"), "NM", "-Q", os.path.join(COQDIR(), "gen"), "NG", "-Q", os.path.join(COQDIR(), "proofs"), "NP", "sc_cases.v"], cwd=workdir, capture_output=True, text=True, timeout=900)
     if p.returncode != 0:
@@ -145,7 +154,7 @@ def run(ctx, n):
         if e[0] not in ("and", "or"):
             e = ("and", e, ("der", 0, c[0] + 1))
         cases.append(e)
-        ctxs.append(rng.choice(["ret", "assign", "arg"]))
+        ctxs.append(rng.choice(["ret", "assign", "arg", ("then", rng.randrange(2))]))
     d = ctx.scratch()
     try:
         where = module(cases, ctxs, d)
@@ -156,18 +165,20 @@ def run(ctx, n):
         for dg in r["diags"] or []:
             if "accessed field `f`" in dg["message"]:
                 real.add(dg["line"])
-        model, merr = run_model(cases, d)
+        model, merr = run_model(cases, d, [c[1] if isinstance(c, tuple) else None for c in ctxs])
         if model is None or len(model) != len(cases):
             return dict(n=0, pure=0, bad=[], error="model evaluation in Coq failed: %s" % merr)
         bad = []
         for i, e in enumerate(cases):
             lv = leafvars(e, {})
+            if isinstance(ctxs[i], tuple):
+                lv[999] = ctxs[i][1]
             exp = set(lv[l] for l in model[i][0])
             got = set(lv[l] for (ci, l), ln in where.items() if ci == i and ln in real)
             if exp != got:
                 body = "\n".join(golines(e, 2))
                 bad.append("as %s:\n%s\nmodel term: %s\nparameters with a reported dereference: real %s, model %s%s" % (
-                    {"ret": "a returned value", "assign": "a right-hand side", "arg": "an argument"}[ctxs[i]], body, coq(e),
+                    {"ret": "a returned value", "assign": "a right-hand side", "arg": "an argument"}.get(ctxs[i], "a right-hand side followed by `return p%d.f == 999`" % (ctxs[i][1] if isinstance(ctxs[i], tuple) else 0)), body, coq(e),
                     sorted("p%d" % v for v in got), sorted("p%d" % v for v in exp),
                     "" if not model[i][1] else "  (the expression is in the class of theorem C19_short_circuit_attribution)"))
         return dict(n=len(cases), pure=sum(1 for m in model if m[1]), bad=bad, error=None)
